@@ -133,7 +133,9 @@ impl Visitor<Diagnostic> for RuleDeclaredEnumeratedValues<'_> {
             // TODO this is using the Id, but not the full enumerated value
             // and we don't have declared appropriate comparison between things
             // that are known but partially declared
-            if !defined_values.contains(value) {
+            // Compare the value names: the optional type prefix (Type#Value)
+            // is not part of the definition
+            if !defined_values.iter().any(|v| v.value == value.value) {
                 return Err(Diagnostic::problem(
                     Problem::EnumValueNotDefined,
                     Label::span(value.span(), "Expected value in enumeration"),
